@@ -198,7 +198,11 @@ defjvp(anp.gradient, "same")
 defjvp(anp.repeat, "same")
 defjvp(anp.tile, "same")
 defjvp(anp.transpose, "same")
-defjvp(anp.sum, "same")
+defjvp(
+    anp.sum,
+    # the tangent of a sum is the sum of the tangents: `initial` belongs to the value only
+    lambda g, ans, x, *args, **kwargs: anp.sum(g, *args, **{k: v for k, v in kwargs.items() if k != "initial"}),
+)
 defjvp(anp.mean, "same")
 defjvp(
     anp.prod, lambda g, ans, x, axis=None, keepdims=False: ans * anp.sum(g / x, axis=axis, keepdims=keepdims)
